@@ -17,10 +17,10 @@ META = {
     "assumptions": ["conditions inside parts are from the well-typed alphabet of mc.gen (their leaf meanings "
                     "are C01's business)"],
     "bounds": {
-        "quick": {"paths": "length<=1 over 39 parts, length 2 over a 20-part sub-alphabet",
-                  "documents": "F-struct(4) + F-type flat/two-level"},
-        "thorough": {"paths": "length<=2 over 39 parts; length 3 over a 12-part sub-alphabet",
-                     "documents": "F-struct(4) + F-type for length<=2; F-struct(5) for length 3"},
+        "quick": {"paths": "length<=1 over 40 parts, length 2 over a 20-part sub-alphabet, length 3 over a 7-part sub-alphabet",
+                  "documents": "F-struct(4) + F-type flat/two-level + F-deep (asymmetric 3-4 level documents)"},
+        "thorough": {"paths": "length<=2 over 40 parts; length 3 over a 12-part sub-alphabet; length 4 over a 7-part sub-alphabet",
+                     "documents": "F-struct(4) + F-type + F-deep for length<=2; F-struct(5) + F-deep for length 3; F-deep + F-type for length 4"},
     },
 }
 
@@ -28,16 +28,19 @@ META = {
 def path_list(tier):
     if tier == "quick":
         ps = list(gen.paths(1, gen.PARTS)) + [p for p in gen.paths(2, gen.PARTS20) if len(p[1]) == 2]
-        return [(p, "s4t") for p in ps]
+        return [(p, "s4t") for p in ps] + [(p, "deep") for p in gen.paths(3, gen.PARTS7) if len(p[1]) == 3]
     ps = [(p, "s4t") for p in gen.paths(2, gen.PARTS)]
     ps += [(p, "s5") for p in gen.paths(3, gen.PARTS12) if len(p[1]) == 3]
+    ps += [(p, "deep") for p in gen.paths(4, gen.PARTS7) if len(p[1]) == 4]
     return ps
 
 
 def family(name):
     if name == "s4t":
-        return gen.docs_struct(4) + gen.docs_type2()
-    return gen.docs_struct(5)
+        return gen.docs_struct(4) + gen.docs_type2() + gen.docs_deep()
+    if name == "deep":
+        return gen.docs_deep() + gen.docs_type2()
+    return gen.docs_struct(5) + gen.docs_deep()
 
 
 _pl = {}
@@ -47,6 +50,11 @@ def _paths(tier):
     if tier not in _pl:
         _pl[tier] = path_list(tier)
     return _pl[tier]
+
+
+def prepare(tier):
+    for _, fam in _paths(tier):
+        family(fam)
 
 
 def units(tier):
